@@ -699,59 +699,36 @@ func (p *parser) parseRelationalExpression() ast.Expression {
 	next := p.parseShiftExpression
 	left := next()
 
+	// RelationalExpression is left-associative (ECMA-262 5.1 - 11.8); `in`
+	// is an operator only where the enclosing production allows it.
 	allowIn := p.scope.allowIn
-	p.scope.allowIn = true
-	defer func() {
-		p.scope.allowIn = allowIn
-	}()
-
-	switch p.token {
-	case token.LESS, token.LESS_OR_EQUAL, token.GREATER, token.GREATER_OR_EQUAL:
-		tkn := p.token
-		if p.mode&StoreComments != 0 {
-			p.comments.Unset()
-		}
-		p.next()
-
-		exp := &ast.BinaryExpression{
-			Operator:   tkn,
-			Left:       left,
-			Right:      p.parseRelationalExpression(),
-			Comparison: true,
-		}
-		return exp
-	case token.INSTANCEOF:
-		tkn := p.token
-		if p.mode&StoreComments != 0 {
-			p.comments.Unset()
-		}
-		p.next()
-
-		exp := &ast.BinaryExpression{
-			Operator: tkn,
-			Left:     left,
-			Right:    p.parseRelationalExpression(),
-		}
-		return exp
-	case token.IN:
-		if !allowIn {
+	for {
+		comparison := false
+		switch p.token {
+		case token.LESS, token.LESS_OR_EQUAL, token.GREATER, token.GREATER_OR_EQUAL:
+			comparison = true
+		case token.INSTANCEOF:
+		case token.IN:
+			if !allowIn {
+				return left
+			}
+		default:
 			return left
 		}
+
 		tkn := p.token
 		if p.mode&StoreComments != 0 {
 			p.comments.Unset()
 		}
 		p.next()
 
-		exp := &ast.BinaryExpression{
-			Operator: tkn,
-			Left:     left,
-			Right:    p.parseRelationalExpression(),
+		left = &ast.BinaryExpression{
+			Operator:   tkn,
+			Left:       left,
+			Right:      next(),
+			Comparison: comparison,
 		}
-		return exp
 	}
-
-	return left
 }
 
 func (p *parser) parseEqualityExpression() ast.Expression {
